@@ -323,6 +323,71 @@ def explore_block(ctx, h, drv, n, nops, label):
                         pass
 
 
+# ---------------------------------------------------------------- oversize records: a refused put must leave the block as it was
+
+MAXKVSZ = 0xfffffff
+
+
+def explore_oversize(ctx, h, drv, n, label):
+    """`iwkv_put` of a record larger than IWKV_MAX_KVSZ is refused (IWKV_ERROR_MAXKVSZ); oracle: the store and the file are as before
+    (old value still readable, image audits clean with the reference contents). Oracle only: the Lean block model is not run on
+    256 MB values (see design notes: the model states the behaviour as theorem `updatev_failure_loses_record`)."""
+    r = C.Rng(ctx.seed, "c06big/" + label)
+    d = os.path.join(C.scratch(), "imgo")
+    os.makedirs(d, exist_ok=True)
+    cases, imgs = [], {}
+    for i in range(n):
+        keys = set()
+        while len(keys) < r.choice([2, 4, 12]):
+            keys.add(bytes(r.randrange(256) for _ in range(r.randrange(1, 30))))
+        keys = sorted(keys)
+        newk, keys = keys[0], keys[1:]
+        vals = {k: _val(r, r.choice([0, 3, 50, 400])) for k in keys}
+        victim = r.choice(keys)
+        ops = ["open 0 1 0", "db 1 0"] + ["put 1 %s 0 %s 0 0" % (G.H(k), G.H(vals[k])) for k in keys]
+        size = MAXKVSZ + 1 - (1 + len(victim)) + r.choice([0, 1, 1000])          # record size = MAXKVSZ + 1 (+ ...)
+        i_upd = len(ops)
+        ops += ["putbig 1 %s 0 %d" % (G.H(victim), size), "get 1 %s 0" % G.H(victim)]
+        i_new = len(ops)
+        ops += ["putbig 1 %s 0 %d" % (G.H(newk), MAXKVSZ + 1 - (1 + len(newk))), "get 1 %s 0" % G.H(newk)]
+        img = os.path.join(d, "%s-%d" % (label, i))
+        ops += ["image " + img, "close"]
+
+        def oracle(lines, i_upd=i_upd, i_new=i_new, victim=victim, vals=vals):
+            if lines[i_upd] != "put maxkvsz":
+                return "refused:oversize update answered `%s`" % lines[i_upd]
+            if lines[i_upd + 1] != "get ok " + G.pval(vals[victim]):
+                return "update-lost:a put refused with IWKV_ERROR_MAXKVSZ changed the store: get of the old record answers `%s`" % lines[i_upd + 1]
+            if lines[i_new] != "put maxkvsz" or lines[i_new + 1] != "get notfound -":
+                return "newkey:oversize put of a new key: `%s` / `%s`" % (lines[i_new], lines[i_new + 1])
+            return None
+        c = Case("oversize", ops, oracle, key=hash(tuple(ops)))
+        imgs[id(c)] = img
+        cases.append(c)
+    probs = differential(ctx, [h, C.scratch() + "/kv6o-%s.db" % label], None, cases, timeout=300)
+    bad = set()
+    for c, p in probs:
+        bad.add(id(c))
+        if p[0] == "oracle":
+            cls, _, msg = p[1].partition(":")
+            ctx.fail(dict(kind="oversize", cls=cls), dict(ops=c.ops, detail=msg), msg[:300])
+        else:
+            ctx.fail(c01.signature(c, p), dict(ops=c.ops, detail=p[1:]), str(p[1])[:400])
+    todo = [c for c in cases if c.impl is not None and os.path.exists(imgs[id(c)])]
+    if drv and todo:
+        rc, out, e = C.run_lines([drv, "fmt"], ["audit %s" % imgs[id(c)] for c in todo], timeout=300)
+        for c, line in zip(todo, out):
+            ctx.hist("oversize:" + " ".join(line.split()[:2]))
+            if not line.startswith("audit ok"):
+                ctx.fail(dict(kind="oversize", cls="image-bad"), dict(ops=c.ops, audit=line[:300]),
+                         "file image after a refused oversize put is not well-formed: " + line[:200])
+    for c in cases:
+        try:
+            os.unlink(imgs[id(c)])
+        except OSError:
+            pass
+
+
 def run(ctx):
     ctx.cov["rule"] = ("a case is a history (1-3 databases of any key mode, puts with values up to 70 KB, deletes, delete waves emptying nodes, metadata of 1-3000 bytes, "
                        "database destroy / create) with file images taken every ~20 ops (non-WAL) and after close (both modes); every image is parsed and audited "
@@ -341,6 +406,7 @@ def run(ctx):
         ctx.cov["rule"] += ("; block stream: one database with <= 32 keys (one node, one data block), puts / cursor sets with growing and shrinking values, "
                             "deletes, forced compaction, an image after EVERY op: the Lean writer model of one data block (IwModel.KvBlk) replays the ops and "
                             "must equal the block in the file (szpow, index size, 32 slot pairs, records, live bytes)")
+        explore_oversize(ctx, h, drv, 2 if ctx.tier == "quick" else 8, "o")
         if ctx.tier == "quick":
             explore_block(ctx, h, drv, 40, 150, "bq")
         else:
